@@ -79,7 +79,7 @@ Print Assumptions C04_super_is_runtime.
      t0 = {% extends %} {% block a %}A0{{ super.super() }}{{ self.b() }}{% endblock %} {% block b %}b{{ i }}{{ super() }}{% endblock %} *)
 Definition ex_t2 : template :=
   {| t_top := [TItem (IText [91%N]); TItem (IBlock 1%N); TItem (IText [124%N]);
-               TItem (IFor 101%N [[49%N]; [50%N]] [IBlock 2%N]); TItem (IText [93%N])];
+               TItem (IFor [[(101%N, [49%N])]; [(101%N, [50%N])]] [IBlock 2%N]); TItem (IText [93%N])];
      t_blocks := [(1%N, {| b_scoped := false; b_required := false; b_body := [IText [65%N; 50%N]] |});
                   (2%N, {| b_scoped := true; b_required := false; b_body := [IVar 101%N] |})] |}.
 Definition ex_t1 : template :=
